@@ -13,6 +13,25 @@ CfEnvThorough == {Cf(cp, mb, StA) : cp \in {1, 2}, mb \in {0, 4, 6}}
 Cf3        == {Cf(1, 0, StA)}
 CfBeh      == {Cf(1, 0, StA), Cf(2, 4, StA)}
 CfSim      == {Cf(cp, mb, st) : cp \in {1, 2, 3}, mb \in {0, 4, 6, 9}, st \in {StA, StM, [A |-> "c2", B |-> "c1"]}}
+(* Simulation: TLC picks uniformly among SUCCESSOR STATES, so with Next a call kind with many argument choices (Get: keys x
+   loader outcomes) swamps the others.  SimNext draws the arguments with RandomElement: one successor per call KIND; keys are
+   drawn half of the time among the keys currently cached (hits, re-puts, removals of present keys), loads fail one time in
+   four, and writers hand over the bucket's content two times out of three (keeps Fresh demanded on most keys). *)
+SimKey(S) == IF Mapped \cap S # {} /\ RandomElement(1..2) = 1 THEN RandomElement(Mapped \cap S) ELSE RandomElement(S)
+SimFail(k) == IF k \in FailKeys /\ RandomElement(1..4) = 1 THEN RandomElement(Fails \ {"ok"}) ELSE "ok"
+SimContent(k) == IF store[DocOf(k)] \in Contents /\ RandomElement(1..3) # 1 THEN store[DocOf(k)] ELSE RandomElement(Contents)
+SimGet(t, k)    == Start(t, "Get", k, Nil, SimFail(k))
+SimGetA(t, k)   == Start(t, "GetActive", k, Nil, SimFail(k))
+SimPut(t, op, k) == Start(t, op, k, SimContent(k), "ok")
+SimNext == \E t \in Threads :
+  \/ Act(t)
+  \/ SimGet(t, SimKey(Keys))
+  \/ SimGetA(t, SimKey(RevKeys))
+  \/ SimPut(t, "Put", SimKey(CvKeys))
+  \/ SimPut(t, "Upsert", SimKey(CvKeys))
+  \/ Start(t, "Remove", SimKey(Keys), Nil, "ok")
+  \/ Start(t, "Peek", SimKey(Keys), Nil, "ok")
+SimSpec == Init /\ [][SimNext]_vars
 BehaviourExport ==
   (Len(hist) = MaxSteps /\ Quiescent) =>
      PrintT(<<"BEH", ToJson([cap |-> cap, maxBytes |-> maxBytes, store |-> store, csize |-> csize, steps |-> hist])>>)
